@@ -1,5 +1,4 @@
 import GnoVerif.Proofs.C05Add
-import Mathlib.Tactic.Ring
 /-! C05: `mullu` is the exact 64×64→128 product; (f) `fmul64` is the correctly rounded exact product. -/
 set_option linter.unusedSimpArgs false
 namespace GnoVerif.C05.L
@@ -30,7 +29,7 @@ theorem mullu_spec (u v : BitVec 64) :
   generalize hV0 : v.toNat % 2^32 = v0 at *
   generalize hV1 : v.toNat / 2^32 = v1 at *
   have hprod : u.toNat * v.toNat = u1 * v1 * 2^64 + (u1 * v0 + u0 * v1) * 2^32 + u0 * v0 := by
-    rw [← hu, ← hv]; ring
+    rw [← hu, ← hv]; grind
   have ba := mul_lt_of_lt32 u1 v1 hu1 hv1
   have bb := mul_lt_of_lt32 u1 v0 hu1 hv0
   have bc := mul_lt_of_lt32 u0 v1 hu0 hv1
